@@ -58,6 +58,18 @@ END_CONSTRUCTS = [
 ]
 
 
+def scan_consts():
+    consts = {}
+    path = os.path.join(os.path.dirname(os.path.abspath(__file__)), "..", "..", "lean", "CifModel", "Gen", "ParseConsts.lean")
+    try:
+        import re
+        for k, v in re.findall(r"^def (\w+) : Nat := (\d+)", open(path).read(), re.M):
+            consts[k] = int(v)
+    except OSError:
+        pass
+    return consts
+
+
 def scan_buffer_points():
     """byte offsets (ASCII / LF input, 4096-byte reads) at which the scan buffer of parser.c is compacted or doubled: the first
     multiple of the read size at which fewer than BUF_MIN_FILL units of room remain, and its multiples — derived from the
@@ -118,6 +130,49 @@ def generate(seed, tier):
                 yield req("utf8", "lf", b - blen + d, h, "s" if (d % 2 == 0) else "c", t)
             if thorough:
                 yield req("utf8", "crlf", b - blen - body.count("\n"), h, "s", t)
+    # one token that outgrows the scan buffer, starting `start` bytes into the file.  With 4096-byte reads the buffer (doubled
+    # once the token fills more than half of it) holds 2*first - start units when exactly `leave = 2*size - 2*first + start`
+    # units of room remain; for leave >= BUF_MIN_FILL nothing is moved, the next 4096-byte read does not fit, the buffer is filled
+    # to its very last unit (a surrogate pair can be cut there) and — if that read is the last of the file — the rest of the
+    # final chunk has to be delivered by one more call.
+    consts = scan_consts()
+    size, minfill = consts.get("bufSizeInitial", 131200), consts.get("bufMinFill", 2050)
+    first = points[0]
+    lo, hi = minfill - (2 * size - 2 * first), read - 1 - (2 * size - 2 * first)          # 1794 .. 3839 for the shipped constants
+    starts = [lo, lo + 1, (lo + hi) // 2, hi - 1, hi] if thorough else [lo, r.randint(lo + 1, hi - 1), hi]
+    line = "x" * 69 + "\n"
+    hl = hexs(V2 + "data_t\n_a\n")
+
+    def long_text(total_units, supp_at=None):
+        """a text field of exactly total_units units (delimiters included); optionally a supplementary character whose lead
+        surrogate is the unit number supp_at of the token"""
+        segs = [hexs(";")]
+        used = 1
+        closing = "\n;"
+        if supp_at is not None:
+            k, f = divmod(supp_at - used, 70)
+            segs.append("R%d:%s" % (k, hexs(line)))
+            segs.append(hexs("x" * f + "\U0001F600\U0001F601 zz\n"))
+            used += 70 * k + f + 2 + 2 + 4
+        k, f = divmod(total_units - used - len(closing), 70)
+        segs.append("R%d:%s" % (k, hexs(line)))
+        segs.append(hexs("y" * f + closing))
+        return "+".join(segs)
+    for start in starts:
+        leave = 2 * size - 2 * first + start
+        # (a) the supplementary character on the last unit of the full buffer (token-relative offset 2*size - 1) and around it
+        for d in ((-2, -1, 0, 1) if thorough else (-1, 0)):
+            yield req("utf8", "lf", start, hl, "s", long_text(2 * size + 3000, 2 * size - 1 + d) + "+" + hexs("\n_b 2\n" + SUFFIX))
+        # (b) the file ends m bytes after the boundary 2*first: the final chunk fits (m <= leave) or does not (m > leave)
+        for m in ([leave - 1, leave, leave + 1, leave + 2, (leave + read) // 2, read - 1] if thorough else [leave, leave + 1, leave + 100, (leave + read) // 2, read - 1]):
+            if m < 12 or m >= read:
+                continue
+            tail_rest = "\n_b 2\n"
+            total_units = 2 * first + m - start - len(tail_rest)
+            yield req("utf8", "lf", start, hl, "c", long_text(total_units) + "+" + hexs(tail_rest))
+        # (c) the same one level down: a token of more than half the initial buffer (>= size/2) that is moved / doubled once
+        yield req("utf8", r.choice(["lf", "crlf"]), start, hl, "s", long_text(size // 2 + 700) + "+" + hexs("\n_b 2\n" + SUFFIX))
+        yield req("utf8", "lf", start, hl, "s", long_text(size + 100, size // 2 + 5) + "+" + hexs("\n_b 2\n" + SUFFIX))
     # random offsets
     for _ in range(3000 if thorough else 300):
         name, v2, head, tail = r.choice(CONSTRUCTS)
